@@ -73,7 +73,7 @@ v["index"] = 0
 expect_problem("stockobject", replay_stockobject.run_history, v, lambda b: b["hist"][1].__setitem__("driver", 2))
 
 print("1b. binding of the trace specifications: one corrupted field of a recorded trace must lead to REJECTED")
-from harness import trace_driver, trace_massbalance, trace_dimsets
+from harness import trace_driver, trace_massbalance, trace_dimsets, trace_stocks
 
 
 def expect_rejection(name, batch, validate, corrupt):
@@ -113,6 +113,16 @@ def corrupt_ds(b):
                 return tid
 
 
+def corrupt_st(b):
+    for tid, tr in enumerate(b["traces"], start=1):
+        for e in tr["events"][1:]:
+            if e["op"] == "compute" and e["outcome"] == "ok" and tr["cls"] == "inflow":
+                e["outcome_note"] = "corrupted"
+                e["stock"][-1][0] = [e["stock"][-1][0][0] + e["stock"][-1][0][1], e["stock"][-1][0][1]]      # + 1
+                return tid
+
+
+expect_rejection("stocks", trace_stocks.record_batch(8, 10, 5), trace_stocks.validate_batch, corrupt_st)
 expect_rejection("workspace", trace_driver.record_batch(0, 6, 12, 5), trace_driver.validate_batch, corrupt_ws)
 expect_rejection("massbalance", trace_massbalance.record_batch(0, 6, 12, 5), trace_massbalance.validate_batch, corrupt_mb)
 expect_rejection("dimsets", trace_dimsets.record_batch(6, 20, 5), trace_dimsets.validate_batch, corrupt_ds)
